@@ -74,6 +74,8 @@ def observe(obs: Any, conn: Any) -> Dict[str, Any]:
             "query": sc.get("query_string"), "scheme": sc.get("scheme"),
             "headers": [(bytes(n), bytes(v)) for n, v in sc.get("headers", [])],
             "messages": msgs, "start_t": i.start_t,
+            "state_at_start": dict(sc.get("state") or {}),
+            "state_snaps": [snap for _, snap in i.state_snaps],
             "exit": "running" if i.running_at_end else ("raise" if (i.exit or "").startswith(
                 "raise") else "return"),
         })
@@ -249,7 +251,30 @@ def src_c07(case: Dict[str, Any]) -> Tuple[dict, dict, Any, Any]:
     return cfg, {}, sc, factory
 
 
-SOURCES = {"c06": src_c06, "c01": src_c01, "c10": src_c10, "c03": src_c03, "c04": src_c04,
+def src_state(case: Dict[str, Any]) -> Tuple[dict, dict, Any]:
+    """Several connections of one worker whose applications write to scope["state"]."""
+    cfg = {"keep_alive_timeout": T_BIG}
+    ok = ["respond", 200, [["content-length", "2"]], ["ok"]]
+    programs = {f"/w{k}": [["set_state", f"key{k}", k], ["snap_state"], ["recv_all"], ok]
+                for k in range(4)}
+    programs["/r"] = [["snap_state"], ["recv_all"], ok]
+
+    async def sc(env: Any) -> Any:
+        conns: Dict[int, Any] = {}
+        for ci, path in case["steps"]:
+            if ci not in conns:
+                conns[ci] = env.connect()
+            conns[ci].send(f"GET {path} HTTP/1.1\r\nHost: x\r\n\r\n".encode())
+            await env.settle(5.0)
+        for c in conns.values():
+            c.eof()
+        await env.settle(50.0)
+        return conns[case["steps"][-1][0]]
+
+    return cfg, programs, sc
+
+
+SOURCES = {"state": src_state, "c06": src_c06, "c01": src_c01, "c10": src_c10, "c03": src_c03, "c04": src_c04,
            "slow": src_slow, "c07": src_c07}
 
 
@@ -280,6 +305,10 @@ def case_strategy(draw: Any, source: str) -> Dict[str, Any]:
         inner["race"] = None
         if inner["when"] == inner["apps"][0]["delay"] and inner["when"] > 0:
             inner["when"] = inner["when"] + 0.05
+    elif source == "state":
+        inner = {"steps": draw(st.lists(st.tuples(
+            st.integers(0, 2), st.sampled_from(["/w0", "/w1", "/w2", "/w3", "/r", "/r"])),
+            min_size=2, max_size=6)), "sched": draw(st.integers(0, 999))}
     elif source == "c07":
         inner = draw(st.one_of(c07.h1_history(), c07.h2_history(), c07.ws_history()))
         # a peer loss through a failing write depends on the transport's buffering
@@ -364,7 +393,7 @@ def run_case(case: Dict[str, Any]) -> CaseInfo:
 def parts() -> List[Part]:
     ps = []
     for src, q in (("c06", 900), ("c01", 700), ("c10", 500), ("c03", 900), ("c04", 900),
-                   ("slow", 300), ("c07", 900)):
+                   ("slow", 300), ("c07", 900), ("state", 200)):
         ps.append(Part(src, run_case, strategy=(lambda s=src: case_strategy(s)), quick=q,
                        thorough=q * 40, rule=f"sessions generated by {src.upper()}'s generators"))
     return ps
